@@ -461,5 +461,13 @@ func main() {
 	})
 	R.Sample("dsm", map[string]any{"u1": "-u2*7", "u2": "lambda", "P": "7G (Z=5)", "model": "identity"})
 	R.Expect("lists/all of length 0..3", "dsm/u1*G = -u2*P (sum is the identity)", "dsm/u1*G = u2*P (final addition is a doubling)", "mismatched length pairs")
+	// cold start: every entry point as the first library operation of a fresh process
+	for _, vt := range []bool{false, true} {
+		R.Cold("msm/long list", "long", mc.D{"vartime": vt, "n": 7, "recv": -1})
+		R.Cold("msm/digits", "digits", mc.D{"vartime": vt, "i": 3, "j": 40, "d1": 9, "d2": 14})
+	}
+	for _, u := range [][2]int64{{5, 3}, {0, 9}, {11, 0}} {
+		R.Cold("dsm", "dsm", mc.D{"u1": mc.HexBig(big.NewInt(u[0])), "u2": mc.HexBig(big.NewInt(u[1])), "p": lib.PtHex(ref.G().Mul(big.NewInt(7))), "z": "2", "aliased": false})
+	}
 	R.Finish()
 }
